@@ -55,9 +55,11 @@ def run(ctx):
   rule_window(ctx)
   # results are indexed by the position of the artifact in the list that was searched: lists of different length raise IndexError (shared with C02)
   rule_invert(ctx)
+  rule_attrs(ctx)
+  ctx.expect("R-C18-ATTRS", 30, "classes of the check, key and number-theory modules")
   rule_defined(ctx)
   ctx.expect("R-C18-DEFINED", 150, "every function of the check, key and number-theory modules")
-  ctx.expect("R-C18-INVERT", 3, "affine Add and Double + BatchInverse inputs")
+  ctx.expect("R-C18-INVERT", 5, "affine Add and Double + BatchInverse inputs + lattice row inverses")
   rule_shift(ctx)
   rule_intpow(ctx)
   rule_next(ctx)
@@ -72,7 +74,15 @@ def run(ctx):
   ctx.expect("R-C18-SHIFT", 2, "TransformOrderLen and the comb offsets")
   from . import c02
   ctx.borrow(c02.rule_align, "R-C18-ALIGN")
-  ctx.expect("R-C18-ALIGN", 4, "four Check bodies consuming a batched search")
+  # gcds[i] is read for every artifact i: BatchGCD must return one entry per input value on every path (shared with C03)
+  from . import c03
+  ctx.borrow(c03.rule_dedup, "R-C18-ALIGN")
+  # a modular inverse of a lattice coordinate is only taken when that coordinate is non-zero modulo n (shared with C08): gmpy2.invert raises otherwise
+  from . import c10
+  ctx.borrow(c10.rule_lookup, "R-C18-ALIGN")          # self._table[x] only for x in the table (KeyError otherwise)
+  from . import c08
+  ctx.borrow(c08.rule_extract, "R-C18-INVERT", lambda r: r.where.startswith("hidden_number_problem:"))
+  ctx.expect("R-C18-ALIGN", 9, "four Check bodies consuming a batched search + BatchGCD one result per input")
   ctx.expect("R-C18-WINDOW", 1, "one windowed lattice call")
   ctx.expect("R-C18-EMPTY", 24 + 3, "24 Check bodies + 3 entry points")
   ctx.expect("R-C18-NULL", 7, "seven draws from CURVE_FACTORY")
@@ -815,4 +825,57 @@ def rule_defined(ctx, R="R-C18-DEFINED", scope="C18"):
       ctx.record(R, "%s:%s" % (m.short, qual), "locals bound before use", not bad, "; ".join(bad) or
                  ("every read of a local is dominated by a binding" + ("" if not any((m.short, qual, nm) in DEFINED_EXEMPT for nm, _, _ in reps) else
                   " (confirmed by reading: " + "; ".join("%s - %s" % (nm, DEFINED_EXEMPT[(m.short, qual, nm)]) for nm, _, _ in reps if (m.short, qual, nm) in DEFINED_EXEMPT) + ")")))
+  return n
+
+
+# ---------------------------------------------------------------------------------------------------------------- attributes exist when read
+def rule_attrs(ctx, R="R-C18-ATTRS", scope="C18"):
+  """`self.x` read in a method raises AttributeError unless x is a method / class attribute (own or inherited) or was bound by the constructor.  For every
+  class of the library: the attributes read through `self` are bound on every path to a normal exit of `__init__` (own or inherited; definite assignment,
+  a binding in only one branch does not count), in the class body, or - for attributes only ever read after a store in the same method - not at all."""
+  from pcstatic import defassign
+  repo = ctx.repo
+  n = 0
+  for m in sorted(repo.modules.values(), key=lambda m_: m_.short):
+    if m.short.startswith("data.") or defined_scope(m.short) != scope:
+      continue
+    for cname, c in sorted(m.classes.items()):
+      n += 1
+      chain = repo.mro(c)
+      known, opaque = set(), False
+      for k in chain:
+        if isinstance(k, str):
+          if k.split(".")[-1] not in ("object", "ABC", "Generic", "Protocol"):
+            opaque = True          # a base class outside the repository: its attributes are not visible
+          continue
+        for st in k.node.body:
+          if isinstance(st, (ast.FunctionDef, ast.AsyncFunctionDef, ast.ClassDef)):
+            known.add(st.name)
+          elif isinstance(st, (ast.Assign, ast.AnnAssign, ast.AugAssign)):
+            for t in (st.targets if isinstance(st, ast.Assign) else [st.target]):
+              for x in ast.walk(t):
+                if isinstance(x, ast.Name):
+                  known.add(x.id)
+        init = k.methods.get("__init__")
+        if init is not None:
+          known |= defassign.attrs_bound_by(init.node)          # bound on every path to a normal exit of the constructor
+      bad = []
+      if not opaque:
+        for mname, meth in sorted(c.methods.items()):
+          if not meth.node.args.args or any(isinstance(d, ast.Name) and d.id in ("staticmethod", "classmethod") for d in meth.node.decorator_list):
+            continue
+          selfname = meth.node.args.args[0].arg
+          stored_here = {x.attr for x in ast.walk(meth.node) if isinstance(x, ast.Attribute) and isinstance(x.ctx, ast.Store) and isinstance(x.value, ast.Name) and x.value.id == selfname}
+          for x in ast.walk(meth.node):
+            if isinstance(x, ast.Attribute) and isinstance(x.ctx, ast.Load) and isinstance(x.value, ast.Name) and x.value.id == selfname:
+              if x.attr in known or x.attr.startswith("__") or (mname != "__init__" and x.attr in stored_here and False):
+                continue
+              if mname == "__init__" and x.attr in stored_here:
+                # read inside the constructor after its own store: order is checked by position
+                first = min(y.lineno for y in ast.walk(meth.node) if isinstance(y, ast.Attribute) and isinstance(y.ctx, ast.Store) and y.attr == x.attr and isinstance(y.value, ast.Name) and y.value.id == selfname)
+                if first < x.lineno:
+                  continue
+              bad.append("self.%s read in %s (line %d) is bound neither by the constructor's top level nor by the class" % (x.attr, mname, x.lineno))
+      ctx.record(R, "%s:%s" % (m.short, cname), "attributes read through self exist", not bad, "; ".join(sorted(set(bad))[:4]) or
+                 ("base class outside the repository: not decided" if opaque else "%d attributes / methods known from the class, its bases and __init__" % len(known)))
   return n
